@@ -121,3 +121,104 @@ def relevant_under(di: int, g0: int, g1: int, nglobs: int, during_build: bool = 
     d = directory if directory.endswith("/") else directory + "/"
     want = sorted({str(f) for ng in regs for f in ng.files() if str(f).startswith(d)})
     return got == want
+
+
+CHAIN = ["a", "a/b", "a/b/c", "a/b/c/d"]
+
+
+def pending_dirs(n: int, e: int, w0: int, w1: int, w2: int, w3: int, wroot: int) -> bool:
+    """A directory handed to the inotify wrapper that does not exist yet, with `e` of its `n` levels
+    present and any earlier bookkeeping (`w*`: 0 unknown, 1 recorded without watch, 2 watched): after
+    `dir_loop` every missing level is recorded and the nearest existing ancestor is watched; when
+    the missing levels then appear (`mkdir -p`, one CREATE event for the first of them), `change_loop`
+    leaves the requested directory watched and reports the file found in it."""
+    import stepup.core.watcher as w
+    from asyncinotify import Mask
+    from path import Path as RealPath
+
+    want = _pick(CHAIN, n - 1)
+    fs = {"depth": e}
+
+    def depth(p):
+        s = str(p)
+        return 0 if s in ("", ".") else s.count("/") + 1
+
+    class FPath(RealPath):
+        def is_dir(self):
+            s = str(self)
+            return s in ("", ".") or (s in CHAIN and depth(s) <= fs["depth"])
+
+        def is_file(self):
+            return str(self) == want + "/f.txt" and fs["depth"] >= n
+
+        def iterdir(self):
+            s = str(self)
+            if s == want:
+                return [FPath(want + "/f.txt")]
+            return [FPath(CHAIN[depth(s)])]
+
+    class FakeInotify:
+        def __init__(self):
+            self.added = []
+
+        def add_watch(self, path, mask):
+            if not FPath(path).is_dir():
+                raise FileNotFoundError(path)
+            self.added.append(str(path))
+            return ("watch", str(path))
+
+        def rm_watch(self, watch):
+            pass
+
+        def get(self):
+            raise RuntimeError("not used")
+
+    class Q:
+        def __init__(self):
+            self.items = []
+
+        def put_nowait(self, item):
+            self.items.append(item)
+
+        def get(self):
+            raise RuntimeError("not used")
+
+    def once(item):
+        async def gen(get_next, stop_event):
+            yield item
+
+        return gen
+
+    wrapper = object.__new__(w.AsyncInotifyWrapper)
+    watches = {}
+    for code, key in ((w0, "a"), (w1, "a/b"), (w2, "a/b/c"), (w3, "a/b/c/d"), (wroot, ".")):
+        if code == 1:
+            watches[FPath(key)] = None
+        elif code == 2:
+            watches[FPath(key)] = ("watch", key)
+    q = Q()
+    for name, val in (("watches", watches), ("inotify", FakeInotify()), ("change_queue", q), ("dir_queue", Q()), ("stop_event", None)):
+        object.__setattr__(wrapper, name, val)
+    saved = (w.Path, w.iter_until_stopped)
+    try:
+        w.Path = FPath
+        w.iter_until_stopped = once(want)
+        _drive(wrapper.dir_loop())
+        for k in range(e, n):
+            if CHAIN[k] not in wrapper.watches:
+                return False
+        near = "." if e == 0 else CHAIN[e - 1]
+        if wrapper.watches.get(near) is None:
+            return False
+        if e < n:
+            fs["depth"] = 4
+            ev = type("Ev", (), {"path": FPath(CHAIN[e]), "mask": Mask.CREATE | Mask.ISDIR})()
+            w.iter_until_stopped = once(ev)
+            _drive(wrapper.change_loop())
+            if wrapper.watches.get(want) is None:
+                return False
+            if not any(str(p) == want + "/f.txt" for _, p in q.items):
+                return False
+        return True
+    finally:
+        w.Path, w.iter_until_stopped = saved
